@@ -253,6 +253,14 @@ def run(ctx):
                                     how_to_replay="./check %s --replay <this file>" % pid))
     if broken:
         report(ctx, "%s/cases-do-not-evaluate" % pid, "cases file does not evaluate", dict(kind="broken-tie", log=broken), no_input=True)
+    refcov = {}
+    if pid == "C06":
+        import c_refs
+        rb = c_refs.BUDGET[ctx.tier]
+        extra, refcov = c_refs.c06_histories(ctx, max(60, rb["n"] // 2), rb["nops"], rb["shards"])
+        for sig, what, rep in extra:
+            found = True
+            report(ctx, sig, what, rep)
     broken_obligations_violation(ctx, obl, found)
     hist = collections.Counter(); distinct = set()
     for c, r in zip(cases, results):
@@ -269,6 +277,7 @@ def run(ctx):
                rule="seeded random (type, value, input form, placement, buffer preparation): types of depth <= %d over the 10 scalar kinds, String, Struct (0-4 fields), arrays 1-3D static/dynamic dims with every axis order; values incl. empty arrays/strings, multi-byte UTF-8, integer extremes, non-finite floats; forms plain data / numpy / another xobject / kwargs / capacity / lengths; buffers of both CPU kinds, capacity 0..4096, default alignment 1..64, prior allocations and frees, poisoned with non-zero bytes; placement default/aligned/packed/explicit. distinct = distinct (type, value, form) with a compound type" % bud["depth"],
                samples=[{"type": cases[k]["type"], "value": cases[k]["value"], "form": cases[k]["form"], "placement": cases[k]["placement"]}],
                distribution=dict(sorted(hist.items())), corpus_cases=len(corpus))
+    cov.update(refcov)
     return finish(ctx, "proof", obl, cov,
                   ["strings are valid UTF-8 without NUL; explicit placements point at space the caller reserved",
                    "scalar payloads are bit patterns: python-number -> dtype conversion is numpy's",
@@ -307,6 +316,9 @@ def replay(ctx, path):
     r = json.load(open(path))
     if r.get("kind") != "concrete":
         print("nothing to execute:", r.get("what")); return 1
+    if r.get("tie") == "K-REF":
+        import c_refs
+        return c_refs.c06_replay(ctx, r)
     c = r["case"]
     res = run_impl(ctx, "layout", {"cases": [c]})["results"][0]
     code = None
